@@ -1218,7 +1218,8 @@ class Sum(Expression):
         return self
 
     def _get_key(self):  # type:ignore
-        return 1, *self.expression._get_key()  # type:ignore
+        # the ranges are part of the key, so that sums over the same expression have a definite order
+        return 1, tuple(r.name for r in self._get_sorted_ranges()), *self.expression._get_key()  # type:ignore
 
     def _get_sorted_ranges(self) -> Sequence[Variable]:
         return sorted(self.ranges, key=attrgetter("name"))
